@@ -16,7 +16,7 @@ LEVEL = "exploration"
 RULE = ("all keys of length 1..3 over 11 byte classes (NUL,TAB,LF,VT,FF,CR,SPACE,other-C0,printable,DEL,high; thorough: "
         "every member of the small classes), every byte value at every position of 10-byte keys and at first/middle/last of "
         "250-byte keys, byte lengths 248..252 for ASCII and 2/3/4-byte UTF-8 characters, prefixes of length 0,1,125,249,250, "
-        "str and bytes, allow_unicode_keys on/off; entry points: the helper, check_key of Client/PooledClient, operations of the three classes on a healthy server, on a HashClient with no server left and on clients whose server refuses connections (17 operations in rotation). Non-trivial = key has a non-alphanumeric byte, is within 2 "
+        "str and bytes, allow_unicode_keys on/off; entry points: the helper, check_key of Client/PooledClient, operations of the three classes on a healthy server, on a HashClient with no server left and on clients whose server refuses connections (20 operations in rotation, the mapping protocol included). Non-trivial = key has a non-alphanumeric byte, is within 2 "
         "bytes of the limit, or has a prefix; distinct by (key, unicode, prefix, entry point).")
 ASSUMPTIONS = [
     "legal(key) per the statement: encoded (ascii / utf8) + prefixed form is <=250 bytes and has no byte in {00,09,0a,0b,0c,0d,20}",
@@ -327,6 +327,10 @@ def shard(tier, seed, idx, n):
         ("cas", lambda c, k: c.cas(k, b"v", b"1")), ("append", lambda c, k: c.append(k, b"v")), ("add", lambda c, k: c.add(k, b"v")),
         ("delete_many", lambda c, k: c.delete_many(["ok", k])), ("decr", lambda c, k: c.decr(k, 1)), ("gets", lambda c, k: c.gets(k)),
         ("replace", lambda c, k: c.replace(k, b"v")), ("prepend", lambda c, k: c.prepend(k, b"v")), ("gat", lambda c, k: c.gat(k, 5)),
+        # the mapping protocol where a class offers it (else the named method it stands for)
+        ("getitem", lambda c, k: c[k] if hasattr(type(c), "__getitem__") else c.get(k)),
+        ("setitem", lambda c, k: c.__setitem__(k, b"v") if hasattr(type(c), "__setitem__") else c.set(k, b"v", noreply=False)),
+        ("delitem", lambda c, k: c.__delitem__(k) if hasattr(type(c), "__delitem__") else c.delete(k, noreply=False)),
     ]
 
     def ign_client(uni, prefix):
